@@ -70,6 +70,15 @@ def scenario(w):
     kw = dict(nensembles=nens, nprocesses=nproc, noise_mode=mode, ensemble_noise=level, max_imfs=max_imfs)
     # state carried from one ensemble call to the next in the same process must not matter: in a quarter of the
     # runs the same call is made twice and each call is judged on its own
+    if ch.flag('prelude_other_variant', 1, 4):
+        # history: the other ensemble variant has been used earlier in this interpreter
+        other = 'complete_ensemble_sift' if variant == 'ensemble_sift' else 'ensemble_sift'
+        try:
+            getattr(S, other)(x[:96].copy(), nensembles=2, nprocesses=1 + ch.pick('prelude.nproc', 2), max_imfs=1)
+        except Exception as e:
+            C.reraise_if_harness(e)
+        w.probe('prelude_call')
+        w.sample['prelude'] = other
     ncalls = 2 if ch.flag('second_call', 1, 4) else 1
     w.sample['calls'] = ncalls
     for ci in range(ncalls):
